@@ -689,7 +689,8 @@ def _lint(ctx, prop):
         pos1, npos1 = lint.rule_POS1(ctx, files)
         dz1, ndz1 = lint.rule_DZ1(ctx, files)
         dead1, ndead1 = lint.rule_DEAD1(ctx, files)
-        out += [sw, ov, n1, d3, cp, cp2, nb, zq, prt, tw, ang, one, aux1, swp, sc1, pos1, dz1, dead1]
+        ds1, nds1 = lint.rule_DS1(ctx, files)
+        out += [sw, ov, n1, d3, cp, cp2, nb, zq, prt, tw, ang, one, aux1, swp, sc1, pos1, dz1, dead1, ds1]
     return out
 
 
